@@ -614,6 +614,7 @@ def run(chk):
     chk.rule("N3", "unlinking through an iterator slot compares the victim with list->tail and, if equal, sets tail to containerof(prevnext)")
     chk.rule("N7", "the basic mutators do their job on every path: extract returns and unlinks the old head (NULL only from an empty list), push links the node in front, insert stores it into the end slot")
     chk.rule("N4", "list_insert_sorted: node moves past X iff cmp(node, X) >= 0 at both tests (C02 T4)")
+    chk.rule("N9", "every assertion of a list operation is evaluated before the operation's first store (otherwise inconclusive)")
     chk.rule("N6", "list.h observers: list_empty(l) is true exactly when l->head == NULL; list_peek(l) returns l->head")
     chk.rule("N5", "list_iterate / list_iterator_next / list_contains / list_remove keep the iterator designating the element the API documents")
     chk.assumptions += ["a node is never inserted while it is a member of a list (the property's scope; inserters assert node->next == NULL)",
@@ -638,6 +639,35 @@ def run(chk):
     chk.rule_filter = None
 
 
+def check_assertions_precede_stores(chk, m):
+    """N9: the list operations assert their preconditions (node->next == NULL) before they touch anything.  An assertion evaluated
+    after the operation has begun to store into the list or the node is evaluated on a half-updated structure: whether it can fail
+    on a call the API allows is a heap question these rules do not decide - reported as inconclusive, never as a violation."""
+    n = 0
+    for fn in m.defined_functions():
+        if not fn.blocks:
+            continue
+        try:
+            ps = paths.enumerate_paths(fn, m, loop_bound=1)
+        except AnalysisError:
+            continue
+        for p in ps:
+            if not paths.is_assert_fail_path(p):
+                continue
+            n += 1
+            st = [e for e in p.events if e.kind in ("store", "memset", "memcpy") and e.ptr is not None and ptr_parts(e.ptr)[0][0] not in ("alloca",)]
+            if st:
+                chk.unknown("N9.assert-before-store", "%s %s" % (fn.name, p.ret_inst.loc if p.ret_inst is not None else ""),
+                            "%s reaches an assertion after it has already stored into the list (%s): the assertion is evaluated on a "
+                            "half-updated structure, and whether it can fail on a call the API allows is not decided"
+                            % (fn.name, st[0].inst.loc), st[0].inst.loc)
+            else:
+                chk.ob("N9.assert-before-store", "%s %s" % (fn.name, "->".join(b.lstrip("%") for b in p.blocks)[-60:]), True,
+                       "the assertion is evaluated before the operation stores anything", fn.loc, fn.name)
+    # (no minimum: a build with NDEBUG has no assertion paths at all)
+    chk.ob("N9.assert-before-store", "list.c", True, "%d assertion-failure paths examined" % n, "", "")
+
+
 def run_rules(chk):
     """N1-N3, N5, N6 on list.c / list.h (also imported by the checks whose code stands on the list API)."""
     m = build.load_unit(UNIT)
@@ -646,3 +676,4 @@ def run_rules(chk):
     check_structure(chk, m, L, N, I)
     check_effects(chk, m, L, N, I)
     check_iterators(chk, m, L, N, I)
+    check_assertions_precede_stores(chk, m)
